@@ -26,6 +26,10 @@ def run (line : String) : String :=
     match n.toNat?, m.toNat?, parseRats? sc, parseMat? r with
     | some n, some m, some [sc], some r => out (constMulRoot sc (getM r n m))
     | _, _, _, _ => "bad-op"
+  | ["constMulRootInv", n, m, isc, r] =>
+    match n.toNat?, m.toNat?, parseRats? isc, parseMat? r with
+    | some n, some m, some [isc], some r => out (constMulRootInv isc (getM r n m))
+    | _, _, _, _ => "bad-op"
   | [op, nb, n, k, x] =>
     match nb.toNat?, n.toNat?, k.toNat?, parseMat? x with
     | some nb, some n, some k, some x =>
